@@ -227,8 +227,11 @@ class _Contr:
         q, u = sol_i.q, sol_i.u
         pts = [np.array([q[(j + self.off) % 3], q[(j + 1 + self.off) % 3], u[j % 2]], dtype=object) for j in range(self.npts)]
         cells = [(3, [j, (j + 1) % self.npts]) for j in range(self.npts)]
-        pdata = {"v": [np.array([u[0], u[1], q[j % 3]], dtype=object) for j in range(self.npts)]}
-        cdata = {"w": [np.array([q[0] * 1, u[1] * 1], dtype=object) for _ in cells]}
+        # data come as lists of rows (RigidBody, PointMass, ...) and as 2-D arrays (rods' directors, Sphere2Plane's P_F): both kinds
+        pdata = {"v": [np.array([u[0], u[1], q[j % 3]], dtype=object) for j in range(self.npts)],
+                 "d": np.array([[q[(j + self.off) % 3], u[(j + 1) % 2]] for j in range(self.npts)], dtype=object)}
+        cdata = {"w": [np.array([q[0] * 1, u[1] * 1], dtype=object) for _ in cells],
+                 "e": np.array([[u[0] * 1, q[(j + self.off) % 3]] for j in range(len(cells))], dtype=object)}
         return pts, cells, pdata, cdata
 
 
@@ -300,8 +303,8 @@ def c_dataflow(k):
                             p2, c2_, pd2, cd2 = _Contr("x", npts=2).export(fr)
                             pts = p1 + p2
                             cells = c1 + [(t, [j + len(p1) for j in conn]) for t, conn in c2_]
-                            pd = {"v": pd1["v"] + pd2["v"]}
-                            cd = {"w": cd1["w"] + cd2["w"]}
+                            pd = {"v": pd1["v"] + pd2["v"], "d": list(pd1["d"]) + list(pd2["d"])}
+                            cd = {"w": cd1["w"] + cd2["w"], "e": list(cd1["e"]) + list(cd2["e"])}
                         _grid_eq(k, f"{pvd} frame {i} {tag}", grid, pts, cells, pd, cd)
                 for fn, recs in first.items():
                     k.prove(f"a later export under the same name does not rewrite {Path(fn).name} {tag}", len(fake.files[fn]) == 1 and fake.files[fn][0] is recs[0])
